@@ -1028,3 +1028,7 @@ func init() {
 		return ex.newByteSlice(ex.bigDigits(x))
 	}
 }
+
+func init() {
+	intercepts[apdP+"noescape"] = func(ex *Exec, a []Value, c *ssa.CallCommon) Value { return a[0] }
+}
